@@ -157,10 +157,10 @@ Definition post_auth_policy (s : server) (u : user) (peer : addr) (authenticated
 (* what kind of KeyInfo a cache entry holds *)
 Inductive keykind :=
 | KNone        (* KeyInfo == nil *)
-| KAes         (* 32-byte key, protocol AES / AESGCM *)
-| KAesBadLen   (* non-empty key of the wrong length, protocol AES: SetSymmetricKey fails *)
+| KAes         (* 32-byte key, protocol AES / AESGCM: the only usable kind *)
+| KAesBadLen   (* non-empty key of another length, protocol AES *)
 | KAesEmpty    (* KeyInfo present with empty Data, protocol AES *)
-| KOther.      (* non-empty key, some other protocol name *)
+| KOther.      (* some other protocol name *)
 
 Record sentry := {
   e_key : keykind;
@@ -205,21 +205,23 @@ Definition cstate_of_full (r : full) : cstate :=
                   n_resumed := false; n_sid := f_sid r |};
      cs_auth_real := f_auth_real r; cs_enc_real := f_enc_real r |}.
 
-(* handleSessionResumption after the lookup succeeded and the reply was sent:
-   Authenticated and User come from the stored policy; a key restores
-   Encryption and is installed on the stream. None = error return. *)
+(* sessionHasUsableKey: KeyInfo != nil && len(Data) == 32 && isAESGCM(Protocol) *)
+Definition usable_key (k : keykind) : bool := match k with KAes => true | _ => false end.
+
+(* handleSessionResumption after the lookup succeeded: an entry without a
+   usable key is treated exactly like an unknown session (error, None).
+   Otherwise Authenticated and User come from the stored policy, the key
+   restores Encryption and is installed on the stream. checkResumedSession then
+   sets Encryption from the stream's real state (true: the key was just
+   installed) and, on the server, checks only the encryption/integrity
+   requirement of the default config against it — which therefore always holds;
+   the authentication requirement is left to the per-command dispatch check. *)
 Definition resume (e : sentry) (s : sid) (c : cmd) : option cstate :=
-  let mk enc resumed real :=
-    Some {| cs_neg := {| n_cmd := c; n_authn := e_authn e; n_enc := enc; n_user := e_user e;
-                         n_resumed := resumed; n_sid := s |};
-            cs_auth_real := e_auth_real e; cs_enc_real := real |} in
-  match e_key e with
-  | KNone => mk false false false
-  | KAes => mk true true true
-  | KAesBadLen => None
-  | KAesEmpty => mk true true false     (* flag set from the protocol name, no key to install *)
-  | KOther => mk false true false
-  end.
+  if usable_key (e_key e) then
+    Some {| cs_neg := {| n_cmd := c; n_authn := e_authn e; n_enc := true; n_user := e_user e;
+                         n_resumed := true; n_sid := s |};
+            cs_auth_real := e_auth_real e; cs_enc_real := true |}
+  else None.
 
 (* ---- the connection script --------------------------------------------- *)
 
@@ -341,6 +343,7 @@ Definition handshake (k : cache) (h : hs_in) : cache * option cstate :=
       match cache_lookup k s with
       | None => (k, None)
       | Some e =>
+          (* the reply (SID_NOT_FOUND or AUTHORIZED) must go out; then the entry is resumed *)
           if io_ok then
             (k, resume e s (match c with Some x => x | None => DC_AUTHENTICATE end))
           else (k, None)
